@@ -44,6 +44,10 @@ def step (s : Option St) (line : String) : Option St × String :=
       match nthKey σ k with
       | none => (s, "bad-op")
       | some key => let σ' := run σ [.kill key, .unregister key]; (some σ', "failed " ++ showSt σ')
+  | ["rapid"], some σ =>
+    -- a burst of list updates whose last one is the current table: every update REPLACES the map (`.apply` is a
+    -- function of the update's list alone), so the state after the burst is the state after its last update
+    (s, showSt σ)
   | ["rpc"], some σ => (s, showRpc (rpc firstBalancer σ 0))
   | ["cancel"], some σ =>
     -- the lifetime ends: every session context ends with it, every session unregisters itself
